@@ -10,6 +10,7 @@ import json
 import random
 import re
 
+from . import mine
 from .pairing import AUDIT
 from .render import Prober, label, tokenize, numval, forms
 from .tlc import run_tlc, validate_observations
@@ -101,6 +102,50 @@ def run(ctx):
                 o['parts'] = parse_result(tk[2], S, E)
                 obs.append(o)
                 info[oid] = (text, S, E)
+    # constants mined from the decoder's own code: as error word stacked on every errno number (flag bits OR-ed /
+    # added), and planted into the START / END words (tuples at every offset) under every errno number
+    planted = 0
+    allerr = list(range(0, 111))
+    for name in names:
+        m = mine.mined(name)
+        if not (m['specific'] or m['tuples']):
+            continue
+        exempt = name in EXEMPT
+        pipe = name == 'BSC_pipe'
+        spec = [v for v in mine.derived(m['specific'], 60) if v > 0]
+        S = pr.distinct_words(name, 'start')
+        Eb = pr.distinct_words(name, 'end')
+        cases = []
+        # partners: every errno number (thorough) / the ones the code compares with plus a fixed spread (quick)
+        part = allerr if not ctx.quick else sorted(set([0, 1, 2, 4, 9, 13, 22, 35, 60, 106] + rnd.sample(allerr, 4) +
+                                                       [v for v in m['common'] + m['specific'] if 0 <= v < 256]))
+        for v in spec[:24 if ctx.quick else 60]:
+            for e in part:
+                for e0 in {v | e, v + e}:
+                    if e0 < (1 << 64):
+                        cases.append((S, [e0] + Eb[1:]))
+        ok = mine.audit_allowed(AUDIT[name], skip=(4,))
+        base = lambda: pr.distinct_words(name, 'start') + [0] + pr.distinct_words(name, 'end')[1:]      # noqa
+        for vec, pl in mine.plant_vectors(name, base, ok, rnd, budget=20 if ctx.quick else 100,
+                                           max_singles=100 if ctx.quick else 1200):
+            tup = len(pl) >= 2
+            es = (allerr if tup else [0] + rnd.sample(allerr, 3)) + [v for v in m['specific'] + m['common'] if 0 < v < 256][:8]
+            for e0 in es:
+                cases.append((list(vec[:4]), [e0] + list(vec[5:])))
+        for S2, E in cases:
+            if forms(E[1]) & forms(E[0]):
+                continue          # return word indistinguishable from the error word: the probe could not tell them apart
+            planted += 1
+            oid = '%s#p%d#%d' % (name, planted, E[0])
+            text = pr.render(name, S2, E, [b'/x', b'/y'])
+            tk = tokenize(text) if text else None
+            if tk is None:
+                continue
+            obs.append({'id': oid, 'kind': 'res', 'name': name, 'exempt': exempt, 'e0zero': E[0] == 0,
+                        'okrefs': ['e1', 'e2'] if pipe else ['e1'], 'okdeps': [1, 2] if pipe else [1],
+                        'res': {'ds': [], 'de': [], 'dl': []}, 'calldep': False, 'parts': parse_result(tk[2], S2, E)})
+            info[oid] = (text, S2, E)
+    ctx.extra['planted_results'] = planted
     nv, rej, _ = validate_observations('Render_Val', obs, ctx.workdir, name='c10val', timeout=3000)
     ctx.traces += nv
     for oid, clause in rej:
